@@ -388,6 +388,7 @@ fn main() {
       }
     };
     writeln!(out, "{}", reply).unwrap();
+    out.flush().unwrap();
     // the snapshot files of this request are no longer needed
     if let Ok(rd) = std::fs::read_dir(&dir) {
       for e in rd.flatten() {
